@@ -11,6 +11,26 @@ CHECKS = {
    technique="bounded-exhaustive term enumeration x exhaustive/boundary assignments vs reference evaluator, canonicity and short-circuit checks",
    text="Every term over the implemented operators (no div/rem) in the stated alphabet is evaluated by eval_expr/eval_bv_expr/eval_array_expr (three value stores, sparse and dense arrays) under every assignment of a stated finite value space and compared with an independent num-bigint SMT-LIB evaluator; result canonicity and inner-node short-circuit are checked on every case.",
    note="Trusted: pvcore reference semantics. Values beyond 8 symbol bits come from the boundary alphabet."),
+ "C02": dict(level="model_checking", engine="drv-mc", design="§4 C02",
+   technique="explicit-state reachability oracle vs the real bmc() run against an enumeration-based reference solver over the real pipe protocol; systems enumerated by deviation-bounded sweeps",
+   text="For every system of the enumerated family (skeletons K1..K7, sweeps S1/S3, +S2 thorough) x solver persona x bad-state mode x simplification x the two boundary bounds around the shortest counterexample, the real bmc() is executed end to end against a reference solver that decides by exhaustive enumeration; the verdict must equal the verdict of an explicit-state breadth-first search of the system's reference semantics.",
+   note="Trusted: pvcore::tsref reference semantics, smtref/refsmt reference solver (calibrated against real z3/cvc5). Systems have <= 3 state variables / 10 state bits, bounds <= 6."),
+ "C03": dict(level="model_checking", engine="drv-mc", design="§4 C03",
+   technique="witness replay through reference semantics for every alternative model of the final query (solver model choice point enumerated exhaustively up to 256 cubes)",
+   text="Every failing session of the C02 family is re-run once per model the reference solver may legally return for the final satisfiable query (all satisfying cubes up to 256, min/max and both don't-care fillings above), plus PDR failures; every witness is replayed through the reference semantics with all shape, init, constraint and failed-set checks of the property.",
+   note="Trusted: pvcore::tsref, refsmt. Replay is existential for next-less states (a witness has no values for them)."),
+ "C04": dict(level="model_checking", engine="drv-mc", design="§4 C04",
+   technique="recorded unrolling script checked by a strict SMT-LIB reference front end and evaluated under every concrete execution of the system (explicit-state enumeration of executions)",
+   text="UnrollSmtEncoding is driven directly (init_at(0|1|3) + 0..3 unrolls) with a recording SolverContext; the exact serialized text must be accepted by a strict standard-conforming front end, and for every concrete execution of the system of that length every per-step symbol must evaluate to the reference value of its signal.",
+   note="Trusted: smtref strict front end (SMT-LIB 2.6), pvcore::tsref. At most 4096 executions per (system, entry, depth)."),
+ "C10": dict(level="model_checking", engine="drv-mc", design="§4 C10",
+   technique="real pdr() against the reference solver; solver answers (models, unsat cores) are numbered choice points explored by policy sweeps and deviation-bounded schedule enumeration; verdict vs explicit-state reachability to a fixpoint",
+   text="On every bit-vector system of the family the real pdr() runs against a reference solver whose every multi-valued answer is a choice point: all-min/all-max/filling/full-core/padded-core policies for every system and every single deviation from the default answer at every choice point for a subset (deviation bound 1; 2 in thorough). Success must imply unreachability, Fail reachability with a replaying witness; anything else on a fault-free run is a violation.",
+   note="Trusted: refsmt answers are legal by construction; termination observed as return within a deadline (twice)."),
+ "C15": dict(level="fault_enumeration", engine="drv-mc", design="§4 C15",
+   technique="fault kind x position enumeration over recorded BMC/PDR solver conversations, injected by the reference solver",
+   text="For every response-bearing command of the recorded conversations and every fault kind (error replies of all critical lengths, unknown, empty, truncated+exit, exit 0/1, balanced and unbalanced garbage) one run is made with exactly that fault; the engine must return Err/Unknown, never a verdict, never panic or hang, and carry the solver's message verbatim.",
+   note="Trusted: refsmt fault injector; termination observed as return within a deadline (twice)."),
 }
 
 NOT_YET = {}
@@ -42,10 +62,11 @@ def main():
             "guard": "patronus_verif",
             "enable": "RUSTFLAGS=--cfg patronus_verif via /verif/harness/.cargo/config.toml (harness builds /repo crates by path)",
             "baseline_off_cmd": "python3 /verif/tools/baseline.py /repo",
-            "source_commits": [],
+            "source_commits": ["fdbfeee"],
             "add_only": True,
         },
         "engines": [
+            {"name": "drv-mc", "path": "/verif/harness/drv-mc", "serves_properties": ["C02", "C03", "C04", "C10", "C15"], "kind_free_text": "real bmc/pdr/encoding run in worker subprocesses against the reference solver refsmt (smtref crate) placed first on PATH under the real solvers' names; explicit-state oracle pvcore::tsref"},
             {"name": "drv-expr", "path": "/verif/harness/drv-expr", "serves_properties": ["C01", "C06", "C12", "C13"], "kind_free_text": "bounded-exhaustive enumeration of terms / construction histories over the real expression code"},
         ],
         "checks": checks,
